@@ -120,6 +120,15 @@ def write_ttl_obligations(ctx: Any, R: str) -> List[Ob]:
             nonzero = has_now and has_0 and isinstance(t.ops[0], ast.NotEq)
         full, rem = (e.body, e.orelse) if zero else (e.orelse, e.body)
         ok = (zero or nonzero) and norm(full) == f'{rec}.ttl' and isinstance(rem, ast.Call) and call_name(rem) == 'get_remaining_ttl' and [norm(a) for a in rem.args] == [now]
+    # ... and the remaining TTL is what is left, to the fraction: max(0, (created + 1000*ttl - now) / 1000) -- rounded only by
+    # the integer field writer (shared with C05.LIFETIME)
+    from .c05 import lifetime as _lifetime
+
+    for o in _lifetime.fn(ctx):
+        if o.construct == 'get_remaining_ttl':
+            o.rule = R
+            o.statement += ' -- this is the remaining TTL a known answer is listed with'
+            obs.append(o)
     cfgw = cfg_of(wt.node)
     wnodes = cfgw.nodes_calling('_write_int')
     bypass = cfgw.must_pass_before_exit(cfgw.entry, lambda n: n in wnodes)
